@@ -147,6 +147,7 @@ type vWorld struct {
 	defs       map[string]ServiceDefinition
 	noise      map[string]string // other service: subject -> id of its presentation there (what the server must list for vSvc2)
 	otherAdds  int               // presentations of the other service the client stored during the running update
+	inject     *vc.VerifiablePresentation // pollinject: an extra entry the adapter adds to the next response
 	clientDown bool   // the client node's VerifyVP fails for everything (DID resolution / verifier outage)
 	addOrder []string // presentation ids in the order the client stored them during the running updateService
 	credPool map[string]vc.VerifiableCredential
@@ -165,6 +166,9 @@ func (a vAdapter) Get(ctx context.Context, endpoint string, timestamp int) (map[
 	ps, seed, ts, err := a.w.server.Get(ctx, id, timestamp)
 	if err != nil {
 		return nil, "", 0, err
+	}
+	if a.w.inject != nil && id == vSvc {
+		ps["999999"] = *a.w.inject
 	}
 	// what api/server/api.go sends and api/server/client/http.go decodes: the JSON form of the response
 	body, err := json.Marshal(client.PresentationsResponse{Entries: ps, Seed: seed, Timestamp: ts})
@@ -255,12 +259,17 @@ func (w *vWorld) cred(kind, subject string) vc.VerifiableCredential {
 	}
 	sd := did.MustParseDID(subject)
 	var c vc.VerifiableCredential
+	withID := kind != "orgNoId"
 	mk := func(issuer string, expRel int64) vc.VerifiableCredential {
 		id := ssi.MustParseURI(issuer + "#" + kind + "-" + strings.ReplaceAll(subject, ":", "_"))
 		exp := time.Unix(w.t0+expRel, 0)
 		cs := map[string]interface{}{"id": subject, "org": "x"}
+		idp := &id
+		if !withID {
+			idp = nil // a credential without `id` (no jti): an optional member as far as the data model goes
+		}
 		res, err := vc.CreateJWTVerifiableCredential(context.Background(), vc.VerifiableCredential{
-			ID: &id, Type: []ssi.URI{ssi.MustParseURI("VerifiableCredential"), ssi.MustParseURI("TestCredential")},
+			ID: idp, Type: []ssi.URI{ssi.MustParseURI("VerifiableCredential"), ssi.MustParseURI("TestCredential")},
 			Issuer: ssi.MustParseURI(issuer), IssuanceDate: time.Unix(w.t0-1000, 0), ExpirationDate: &exp,
 			CredentialSubject: []interface{}{cs},
 		}, func(_ context.Context, claims map[string]interface{}, _ map[string]interface{}) (string, error) {
@@ -276,6 +285,8 @@ func (w *vWorld) cred(kind, subject string) vc.VerifiableCredential {
 		c = mk("did:example:authority", 86400)
 	case "orgShort":
 		c = mk("did:example:authority", 1800)
+	case "orgNoId":
+		c = mk("did:example:authority", 86400)
 	case "foreign":
 		c = mk("did:example:nobody", 86400)
 	case "holder":
@@ -372,7 +383,9 @@ func (w *vWorld) build(rec vRecipe) *vBuilt {
 		m["signer"] = []string{kid.String(), kid.Method}
 	}
 	m["retraction"] = b.vp.IsType(retractionPresentationType)
+	credIds := []bool{}
 	for _, c := range b.vp.VerifiableCredential {
+		credIds = append(credIds, c.ID != nil)
 		if c.ExpirationDate != nil {
 			credExps = append(credExps, c.ExpirationDate.Unix())
 		} else {
@@ -383,6 +396,7 @@ func (w *vWorld) build(rec vRecipe) *vBuilt {
 		credExps = []interface{}{}
 	}
 	m["creds"] = credExps
+	m["credIds"] = credIds
 	matched, _, err := w.def.PresentationDefinition.Match(b.vp.VerifiableCredential)
 	if err != nil {
 		m["pex"] = -1
@@ -457,6 +471,8 @@ func vErrClass(err error) string {
 	}
 	s := err.Error()
 	switch {
+	case strings.Contains(s, "credential does not have an ID"):
+		return "err:cred-no-id"
 	case errors.Is(err, errUnsupportedPresentationFormat):
 		return "err:format"
 	case errors.Is(err, errPresentationWithoutID):
@@ -741,6 +757,16 @@ func (r *vRunner) exec(op vOp, src func() (vOp, bool)) {
 		}
 		op.Order = w.addOrder
 		r.emit(op, w.observe(cls, op.Now))
+	case "pollinject":
+		// a faulty / hostile discovery server hands out a presentation the real server would never list (here: with a
+		// credential without id) next to what it really lists; the client stores before it verifies
+		inj := w.build(*op.Recipe)
+		op.VP = inj.model
+		w.inject = &inj.vp
+		w.addOrder = nil
+		cls := vRecover(func() error { return w.client.clientUpdater.updateService(ctx, w.def) })
+		w.inject = nil
+		r.emit(op, w.observe(cls, op.Now))
 	case "purge":
 		// clientRegistrationManager.removeRevoked: nothing is revoked here, verification failures are not revocations
 		cls := vRecover(func() error { return w.client.registrationManager.removeRevoked() })
@@ -968,6 +994,10 @@ func (r *vRunner) genServerOp(lastExp map[string]int64) vOp {
 	case pick < 95:
 		class = "retract:with-creds"
 		rec.Retraction, rec.RetractJTI = true, to.Ptr(subj+"#x")
+	case pick < 96:
+		// a credential without `id`: the credential store keys its records by it
+		class = "defect:cred-no-id"
+		rec.Creds = [][]string{{"orgNoId", "holder"}, {"holder", "orgNoId"}}[rng.Intn(2)]
 	case pick < 97:
 		class = "retract:no-jti"
 		rec.Retraction, rec.Creds = true, []string{}
@@ -1054,6 +1084,22 @@ func (r *vRunner) history(hist int, nOps int) {
 			for k := 0; k < 2; k++ {
 				quiet++
 				r.exec(vOp{Op: "poll", Quiet: quiet}, nil)
+			}
+			if rng.Intn(3) == 0 && r.w.server.store != nil {
+				// only when the list has a seed and a timestamp (else the client would take the server role for the entry)
+				var svc serviceRecord
+				r.w.server.store.db.Find(&svc, "id = ?", vSvc)
+				live := true // an expired server row may be re-fetched in this poll: its turn relative to the injected entry is map order
+				for _, row := range r.serverRows() {
+					if row.PresentationExpiration <= vNow()+5 {
+						live = false
+					}
+				}
+				if svc.Seed != "" && live {
+					rec := r.validRecipe("did:example:s5")
+					rec.Creds = []string{"orgNoId", "holder"}
+					r.exec(vOp{Op: "pollinject", Recipe: &rec, Class: "server-hands-out-credential-without-id"}, nil)
+				}
 			}
 		case p < 94:
 			// a poll with server events between the two reads of get
